@@ -3,10 +3,12 @@
 UniqueMask.evalf(sorted_array)          mask[0] is True and mask[i] <=> a[i] != a[i-1]            (any length)
 UniqueInverse.evalf(unique_mask, sorter) for a permutation `sorter`:  inverse[sorter[k]] = (number of True in mask[:k+1]) - 1,
                                         hence inverse[sorter[0]] = 0 when mask[0], consecutive values differ by mask[k] in {0,1}
-numeric.compress_indices                BOUNDED stand-in (exhaustive native enumeration, all index vectors of length <= 6 over
-                                        range(length), length <= 6): equals indices.searchsorted(arange(length+1)), is a monotone
-                                        row-pointer from 0 to len(indices), and raises ValueError exactly for out-of-bounds or
-                                        non-monotone input.  numpy.repeat needs a prefix-sum induction the VC generator does not do.
+numeric.compress_indices                DEDUCTIVE, any length (contracts/compress.py): the result is the row pointer of the index
+                                        vector (len = length+1, c[0] = 0, c[-1] = len(indices), monotone, c[i] the insertion point of i,
+                                        c[i] <= k < c[i+1] <=> indices[k] == i) and ValueError is raised exactly for out-of-bounds or
+                                        non-monotone input.  The prefix-sum facts behind numpy.repeat are lemmas with explicit
+                                        base + step obligations.  The exhaustive native enumeration (length <= 6) is kept as a
+                                        bounded cross-check of the same statement against the real numpy.
 """
 import z3
 from pyvc.contract import Contract, State
@@ -14,6 +16,7 @@ from pyvc.values import SInt, SBool, SObj, Unsupported, PyRaise, zint
 from pyvc.nparr import Vec, Numpy, qforall
 from pyvc.native import NativeBounded
 from pyvc import ops
+from contracts import compress as _compress
 
 PROP = 'C05'
 LEVEL = 'proof'
@@ -69,6 +72,7 @@ class UniqueInverse(Contract):
 class CompressIndices(NativeBounded):
     prop = PROP
     fn = 'numeric:compress_indices'
+    label = 'native-enumeration'
     bounded = 'exhaustive native enumeration: length <= 6, every index vector of len <= 6 with entries in [-1, length]'
     module = 'c05'
     call = 'compress_indices()'
@@ -152,12 +156,11 @@ class InflateAssparse(Contract):
 
 
 def contracts():
-    return [UniqueMask(), UniqueInverse(), CompressIndices(), InflateAssparse(1), InflateAssparse(2), InflateAssparse(3)]
+    return [UniqueMask(), UniqueInverse(), _compress.CompressIndices(PROP), CompressIndices(), InflateAssparse(1), InflateAssparse(2), InflateAssparse(3)]
 
 
 TRUSTED = ['pyvc symbolic executor; numpy externals: empty/empty_like, slice stores, not_equal(out=), cumsum recurrence (L-CUMSUM), injective integer-array store',
-           'int64 as mathematical integers']
-ASSUMPTIONS = ['UniqueInverse: sorter is a permutation (it is numpy.argsort output)',
-               'compress_indices is only checked up to the stated bound (bounded stand-in, not a proof)']
+           'int64 as mathematical integers'] + _compress.TRUSTED
+ASSUMPTIONS = ['UniqueInverse: sorter is a permutation (it is numpy.argsort output)'] + _compress.ASSUMPTIONS
 NOT_COVERED = ['the structural recursion _assparse of the node classes and "scattering the listed values reproduces the dense array" (needs array semantics)',
                'ravel/unravel loops of Array.assparse (IR-level; DESIGN 4.5), evaluable.as_csr composition']
